@@ -700,10 +700,6 @@ func main() {
 					w.events = append(w.events, ev{kind: "unknown", args: []string{"function ends holding " + m}})
 				}
 			}
-			w.events = tidy(w.events)
-			if len(w.events) == 0 {
-				continue
-			}
 			name := fd.Name.Name
 			if recv != "" {
 				name = recv + "." + name
@@ -711,6 +707,48 @@ func main() {
 			fns = append(fns, fn{name, w.events})
 		}
 	}
+	// keep only calls that can reach a synchronisation event (or user code): a function "touches"
+	// synchronisation if it has a direct event or calls one that does
+	touches := map[string]bool{}
+	for changed := true; changed; {
+		changed = false
+		for _, f := range fns {
+			ln := lastName(f.name)
+			if touches[ln] {
+				continue
+			}
+			for _, e := range f.evs {
+				switch e.kind {
+				case "ret":
+				case "call", "deferCall":
+					c := lastName(strings.TrimSuffix(e.args[0], "()"))
+					if touches[c] || userCode[c] || c == "unlock" {
+						touches[ln], changed = true, true
+					}
+				default:
+					touches[ln], changed = true, true
+				}
+			}
+		}
+	}
+	var kept []fn
+	for _, f := range fns {
+		var evs []ev
+		for _, e := range f.evs {
+			if e.kind == "call" || e.kind == "deferCall" {
+				c := lastName(strings.TrimSuffix(e.args[0], "()"))
+				if !(touches[c] || userCode[c] || c == "unlock") {
+					continue
+				}
+			}
+			evs = append(evs, e)
+		}
+		evs = tidy(evs)
+		if len(evs) > 0 {
+			kept = append(kept, fn{f.name, evs})
+		}
+	}
+	fns = kept
 	sort.SliceStable(fns, func(i, j int) bool { return fns[i].name < fns[j].name })
 
 	var b strings.Builder
